@@ -1,8 +1,8 @@
 """C13 - weeding removes exactly the k-mers of the weed sequences and nothing else.
 
 Decided clauses:
-  C13.keep      a row is kept iff (k-mer found in the weed set) == reverse   (4-row truth table)
-  C13.rows      = C06.rows instance `weed` (k-mer, row, count pushed together)
+  C13.func      MergeSkaArray::weed interpreted on a 6-row table for every weed subset (with absent and duplicate k-mers),
+                both modes: rows kept iff (k-mer in weed set) == reverse, bases / names untouched, counts stay aligned
   C13.args      the weed set is RefSka::new(array.kmer_len(), file, array.rc(), false, false) of the array being
                 weeded, collected from kmer_iter() over all reference k-mers into a HashSet
   C13.nofilter  generic_modes::weed calls filter only if floor(n*min_freq) > 0 || filter != NoFilter || ambig_mask ||
@@ -15,50 +15,15 @@ from ..cond import reach_formula, eval_formula, eval_expr, Unevaluable
 from .util import reachable_without, field_writes
 from .c12 import _region_head
 
-EXPLANATION = 'Path-condition truth tables for the keep predicate and the filter gate, provenance of the weed-set construction, write-set of `names`.'
-ASSUMPTIONS = ['HashSet::contains / from_iter semantics']
+EXPLANATION = 'Small-scope abstract interpretation of MergeSkaArray::weed against the plain-table model; path-condition truth table for the filter gate; provenance of the weed-set construction.'
+ASSUMPTIONS = ['models of HashSet (from_iter/contains), ndarray::Array2 (zeros/push_row/outer_iter) and Vec are faithful']
 MSA = 'merge_ska_array::MergeSkaArray'
 
 
 def run(facts, chk, tier, only=None):
-    def keep():
-        w = facts.fn(MSA + '::weed')
-        eb = ExprBuilder(w, through_vars=False)
-        pr = [bb for bb, t in w.calls() if 'push_row' in (t.callee.name or '')]
-        nx = [bb for bb, t in w.calls() if (t.callee.name or '').endswith('::next') and w.in_cycle(bb)]
-        if len(pr) != 1 or len(nx) != 1:
-            raise AnchorLost('weed: %d push_row, %d loop heads' % (len(pr), len(nx)))
-        body = next(tg for v, tg in w.blocks[w.blocks[nx[0]].term.target].term.targets if v == 1)
-        ct = [bb for bb, t in w.calls() if (t.callee.name or '').endswith('HashSet::contains')]
-        if len(ct) != 1:
-            raise AnchorLost('weed: %d contains calls' % len(ct))
-        # first push of the kept branch
-        first_push = min(bb for bb, t in w.calls() if bb in reachable_without(w, body, avoid_blocks=nx) and
-                         ((t.callee.name or '').endswith('Vec::push') or 'push_row' in (t.callee.name or '')))
-        f = reach_formula(w, eb, w.blocks[ct[0]].term.target, _region_head(w, first_push), stop=nx, back_edges_ok=True)
-        bad = []
-        for rev in (0, 1):
-            for found in (0, 1):
-                def leaf(x, rev=rev, found=found):
-                    if x[0] == 'arg' and x[2] == 'reverse':
-                        return rev
-                    if x[0] == 'var' and x[2] == 'kmer_found':
-                        return found
-                    if x[0] == 'call' and x[1].endswith('contains'):
-                        return found
-                    raise Unevaluable()
-                if bool(eval_formula(f, lambda ex: eval_expr(ex, leaf))) != (rev == found):
-                    bad.append((rev, found))
-        # kmer_found = contains(weed_kmers, kmer)
-        kf = show(ExprBuilder(w).local_expr(w.locals_named('kmer_found')[0]))
-        return bad, kf, w.blocks[ct[0]].term.span
-    r = chk.guard('C13.keep', 'C13.keep:weed', keep)
-    if r is not None:
-        bad, kf, sp = r
-        if bad:
-            chk.violation('C13.keep', 'C13.keep:weed', where=sp, evals=4, detail='row kept iff found == reverse fails at (reverse, found) = %s' % bad)
-        else:
-            chk.ok('C13.keep', 'C13.keep:weed', sp, 'kept iff found == reverse (4 rows); found = %s' % kf[:80], evals=4)
+    # the operation itself: interpreted on all weed subsets (incl. absent / duplicate k-mers), both modes, stale counts
+    from . import tableops
+    chk.guard('C13.func', 'C13.func:weed', lambda: tableops.check_weed(facts, chk, 'C13.func', tier))
 
     def args():
         g = facts.fn('generic_modes::weed')
@@ -158,25 +123,3 @@ def run(facts, chk, tier, only=None):
     from . import c01
     # the weed set is enumerated by the shared SplitKmer iterator (last window of each weed sequence)
     chk.guard('C13.window', 'C13.window:run', lambda: c01.check_guards(facts, chk, 'C13.window'))
-
-    # rows
-    def rows():
-        from . import c06
-        return True
-    b = facts.fn(MSA + '::weed')
-    pr = [bb for bb, t in b.calls() if 'push_row' in (t.callee.name or '')]
-    pushes = [(bb, t) for bb, t in b.calls() if (t.callee.name or '').endswith('Vec::push')]
-
-    def ctrl(bb):
-        out = set()
-        for d in b.dominators()[bb]:
-            t = b.blocks[d].term
-            if t.k == 'switch':
-                for s in set(t.succs()):
-                    if bb not in reachable_without(b, s, avoid_blocks=[d]):
-                        out.add((d, s))
-        return out
-    if len(pr) == 1 and len(pushes) == 2 and all(ctrl(p[0]) == ctrl(pr[0]) for p in pushes):
-        chk.ok('C13.rows', 'C13.rows:weed', MSA + '::weed', 'k-mer, row and count are pushed under the same condition')
-    else:
-        chk.violation('C13.rows', 'C13.rows:weed', where=MSA + '::weed', detail='k-mer / row / count pushes in weed are not control-equivalent')
